@@ -152,6 +152,7 @@ CHECKS["C08"] = {
         {"pkg": "sys", "test": "TestRegressD3", "quick": 1, "thorough": 1, "shards": 1},
         {"pkg": "sys", "test": "TestRegressD6", "quick": 1, "thorough": 1, "shards": 1},
         {"pkg": "sys", "test": "TestRegressD8", "quick": 1, "thorough": 1, "shards": 1},
+        {"pkg": "sys", "test": "TestRegressD9", "quick": 1, "thorough": 1, "shards": 1},
         {"pkg": "sys", "test": "TestC08Transparency", "quick": 120, "thorough": 15000, "shards_quick": 8, "shards_thorough": 12, "shrinktime": "10s", "timeout_quick": 900, "timeout_thorough": 7200},
         {"pkg": "sys", "test": "TestC08Failures", "quick": 80, "thorough": 8000, "shards_quick": 8, "shards_thorough": 12, "shrinktime": "10s", "timeout_quick": 900, "timeout_thorough": 7200},
     ],
